@@ -64,6 +64,9 @@ def build(case, variant):
     body = header + [""] + section.split("\n") + footer
     pad = "    " * (case["indent"] + (1 if case.get("route") == "function" else 0))
     text = "\n" + "\n".join((pad + ln) if ln.strip() else ln for ln in body) + "\n" + pad
+    if case.get("first") == "quotes":
+        # the summary stands right behind the opening quotes: that line has no indentation of its own
+        text = text[1 + len(pad):]
     return text, header, footer, section
 
 
@@ -199,7 +202,7 @@ def check(run, replay=None):
     if replay:
         with open(replay) as f:
             want = json.load(f)["case"]["case"]
-        cases = [c for c in cases if all(c.get(k) == want.get(k, c.get(k)) for k in ("h", "f", "from", "to", "indent", "route", "sect"))]
+        cases = [c for c in cases if all(c.get(k) == want.get(k, c.get(k)) for k in ("h", "f", "from", "to", "indent", "route", "sect", "first"))]
     run.exhaustive = True
     items = [(c, v) for c in cases for v in (0, 1)]
     tri = {}
@@ -209,11 +212,12 @@ def check(run, replay=None):
                 continue
             case = res["case"]
             run.replayed += 1
-            key = json.dumps([case["h"], case["f"], case["from"], case["to"], case["indent"], case.get("route"), case.get("sect"), res["variant"]])
+            key = json.dumps([case["h"], case["f"], case["from"], case["to"], case["indent"], case.get("route"), case.get("sect"), case.get("first"), res["variant"]])
             for d in case["devs"]:
                 run.trigger(d)
-            label = "header={} footer={} section={} {}->{} indent={} route={} params={}".format(
-                "".join(case["h"]), "".join(case["f"]) or "-", case.get("sect"), case["from"], case["to"], case["indent"], case.get("route"), res["variant"])
+            label = "header={} footer={} section={} {}->{} indent={} route={} first-line={} params={}".format(
+                "".join(case["h"]), "".join(case["f"]) or "-", case.get("sect"), case["from"], case["to"], case["indent"], case.get("route"), case.get("first"),
+                res["variant"])
             if not res["fails"]:
                 run.held(key)
             else:
